@@ -3,7 +3,7 @@
 # Applies a patch to a scratch copy of /repo (never to /repo itself), checks that it
 # compiles, runs every claimed check against the copy, prints which properties/rules fire.
 set -u
-patch="$1"; label="${2:-$(basename $(dirname "$patch"))}"
+patch="$(readlink -f "$1")"; label="${2:-$(basename $(dirname "$patch"))}"
 d=$(mktemp -d /tmp/ev.XXXXXX)
 rsync -a --exclude .git /repo/ "$d/"
 ( cd "$d" && patch -s -p1 < "$patch" ) || { echo "$label: PATCH DOES NOT APPLY"; rm -rf "$d"; exit 3; }
